@@ -1498,7 +1498,9 @@ class Rsa(Base):
                 for b in range(8 * len(em)):
                     if (b % ctx.nshards) != ctx.shard and ctx.quick:
                         continue
-                    craft("em-allflips", (emi ^ (1 << b)).to_bytes(len(em), "big"), msg, pre, b)
+                    # a flipped bit at or above emBits is the "leftmost bits must be zero" class of its own
+                    top = self.pad == "pss" and b >= nb - 1
+                    craft("top-bits-set" if top else "em-allflips", (emi ^ (1 << b)).to_bytes(len(em), "big"), msg, pre, b)
 
         # ---------------- every single-bit flip of one honest signature
         if heavy and last is not None:
@@ -1998,6 +2000,151 @@ class Psb(PairScheme):
         return self.pair_eq(self.a, self.t2, self.b, self.g)
 
 
+class Mklhs(PairScheme):
+    """multi-key linearly homomorphic signature: S signers, L tags, linear function f"""
+    name, sigfn, verfn = "mklhs", "cp_mklhs_sig", "cp_mklhs_ver"
+    msg_kind = "bn"
+
+    def __init__(self, ctx, R, S=2, L=2):
+        PairScheme.__init__(self, ctx, R)
+        self.S, self.L = S, L
+        self.name = "mklhs-%dx%d" % (S, L)
+
+    def setup(self):
+        R, rng = self.R, self.rng
+        S, L = self.S, self.L
+        self.base_setup()
+        self.sks = [R.new("bn") for _ in range(S)]
+        self.pk = R.arr("g2", S)
+        self.mu = R.arr("bn", S)
+        self.m = R.new("bn")
+        self.sig = R.new("g1")
+        self.tmpsig = R.new("g1")
+        self.msgs = [R.arr("bn", L) for _ in range(S)]
+        self.sigs = [R.arr("g1", L) for _ in range(S)]
+        self.data = Comp("data", "bytes", "key", val=b"database-%d" % rng.randrange(100))
+        self.ids = [Comp("id[%d]" % i, "bytes", "key", val=[b"Alice", b"Bob", b"Carol"][i]) for i in range(S)]
+        self.tags = [Comp("tag[%d]" % j, "bytes", "key", val=b"t%d" % j) for j in range(L)]
+        self.f = [[rng.randrange(1, 1 << 32) for _ in range(L)] for _ in range(S)]
+        for i in range(S):
+            if not self.okres(R.call("cp_mklhs_gen", self.sks[i], self.pk + i * R.g2_sz)):
+                return False
+        return True
+
+    @staticmethod
+    def cs(b):
+        return b.split(b"\0")[0]
+
+    def sign(self, msg):
+        R, rng = self.R, self.rng
+        S, L, n = self.S, self.L, R.n
+        dp = R.put(self.cs(self.data.val) + b"\0")
+        blocks = [dp]
+        try:
+            R.call("ep_set_infty", self.sig)
+            total = 0
+            for i in range(S):
+                ip = R.put(self.cs(self.ids[i].val) + b"\0")
+                blocks.append(ip)
+                mv = []
+                for j in range(L):
+                    v = msg % n if (i == 0 and j == 0) else rng.randrange(n)
+                    mv.append(v)
+                    R.bn_put(self.msgs[i] + j * R.bn_sz, v)
+                    tp = R.put(self.cs(self.tags[j].val) + b"\0")
+                    blocks.append(tp)
+                    if not self.okres(R.call("cp_mklhs_sig", self.sigs[i] + j * R.ep_sz, self.msgs[i] + j * R.bn_sz, dp, ip, tp, self.sks[i])):
+                        return False
+                fp = R.dig_array(self.f[i])
+                blocks.append(fp)
+                if not self.okres(R.call("cp_mklhs_fun", self.mu + i * R.bn_sz, self.msgs[i], fp, L)):
+                    return False
+                exp = sum(a * b for a, b in zip(mv, self.f[i])) % n
+                if R.bn_val(self.mu + i * R.bn_sz) != exp:
+                    self.ctx.fail("cp_mklhs_fun|linear|value", {"got": hx(R.bn_val(self.mu + i * R.bn_sz)), "exp": hx(exp)})
+                    return False
+                total = (total + exp) % n
+                if not self.okres(R.call("cp_mklhs_evl", self.tmpsig, self.sigs[i], fp, L)):
+                    return False
+                R.call("g1_add", self.sig, self.sig, self.tmpsig)
+            R.call("g1_norm", self.sig, self.sig)
+            R.bn_put(self.m, total)
+            return True
+        finally:
+            for b in blocks:
+                R.free(b)
+
+    def comps(self):
+        R = self.R
+        cs = [Comp("sig", "g1", "sig", self.sig), Comp("m", "bn", "msg", self.m)]
+        cs += [Comp("mu[%d]" % i, "bn", "msg", self.mu + i * R.bn_sz) for i in range(self.S)]
+        cs += [Comp("pk[%d]" % i, "g2", "pk", self.pk + i * R.g2_sz) for i in range(self.S)]
+        cs += [self.data] + self.ids + self.tags
+        return cs
+
+    def ver(self):
+        R = self.R
+        S, L = self.S, self.L
+        blocks = []
+
+        def keep(p):
+            blocks.append(p)
+            return p
+        try:
+            dp = keep(R.put(self.cs(self.data.val) + b"\0"))
+            idv = keep(R.ptr_array([keep(R.put(self.cs(c.val) + b"\0")) for c in self.ids]))
+            tgv = keep(R.ptr_array([keep(R.put(self.cs(c.val) + b"\0")) for c in self.tags]))
+            fv = keep(R.ptr_array([keep(R.dig_array(self.f[i])) for i in range(S)]))
+            fl = keep(R.ptr_array([L] * S))
+            return R.call("cp_mklhs_ver", self.sig, self.m, self.mu, dp, idv, tgv, fv, fl, self.pk, S)
+        finally:
+            for b in blocks:
+                R.free(b)
+
+    def eqn(self):
+        R = self.R
+        S, L, n = self.S, self.L, R.n
+        if not self.on1(self.sig):
+            return False
+        mus = [R.bn_get(self.mu + i * R.bn_sz)[0] for i in range(S)]
+        mv = R.bn_get(self.m)[0]
+        if mv != sum(mus) % n:       # the verifier compares m with the reduced sum (bn_cmp): m itself must be reduced
+            return False
+        data = self.cs(self.data.val)
+        R.call("fp12_set_dig", self.e2, 1)
+        hd, hl = R.new("g1"), R.new("g1")
+        try:
+            for i in range(S):
+                pk = self.pk + i * R.g2_sz
+                if not self.valid2(pk):
+                    return False
+                ident = self.cs(self.ids[i].val)
+                b = R.bytes_in(data + ident)
+                R.call("g1_map", hd, b, len(data + ident))
+                R.free(b)
+                R.call("ep_set_infty", self.t1)
+                for j in range(L):
+                    tg = self.cs(self.tags[j].val)
+                    b = R.bytes_in(ident + tg)
+                    R.call("g1_map", hl, b, len(ident + tg))
+                    R.free(b)
+                    R.call("g1_add", hl, hl, hd)
+                    R.bn_put(self.tb, self.f[i][j])
+                    R.call("g1_mul", hl, hl, self.tb)
+                    R.call("g1_add", self.t1, self.t1, hl)
+                R.bn_put(self.tb, mus[i] % n)
+                R.call("g1_mul_gen", hl, self.tb)
+                R.call("g1_add", self.t1, self.t1, hl)
+                R.call("g1_norm", self.t1, self.t1)
+                R.call("pc_map", self.e1, self.t1, pk)
+                R.call("gt_mul", self.e2, self.e2, self.e1)
+            R.call("pc_map", self.e1, self.sig, self.g2gen)
+            return R.call("gt_cmp", self.e1, self.e2).i == R.EQ
+        finally:
+            R.free(hd)
+            R.free(hl)
+
+
 def run_pairing(ctx):
     R = PX(ctx.cfg)
     rng = ctx.rng
@@ -2007,7 +2154,8 @@ def run_pairing(ctx):
     di = 0
     for ci, nm in enumerate(names):
         R.set_curve(R.E[nm], pairing=True)
-        schemes = [Bls(ctx, R), Bbs(ctx, R), Zss(ctx, R), Cls(ctx, R), Cli(ctx, R), Clb(ctx, R, 3), Pss(ctx, R), Psb(ctx, R, 3)]
+        schemes = [Bls(ctx, R), Bbs(ctx, R), Zss(ctx, R), Cls(ctx, R), Cli(ctx, R), Clb(ctx, R, 3), Pss(ctx, R), Psb(ctx, R, 3),
+                   Mklhs(ctx, R, 1, 1), Mklhs(ctx, R, 2, 2), Mklhs(ctx, R, 2, 3)]
         for si, sch in enumerate(schemes):
             di += 1
             sch.di = di * 1000
